@@ -517,14 +517,32 @@ def n8(ctx, rep):
     (`import.base_crate`) or the referencing crate itself.  Enumerating the inner map (`values()`, `iter()`, a `for` over it) picks
     the rename of some other crate: a same-named, un-renamed local or third-crate type is then rewritten to a foreign serde name —
     the definition keeps its name, the reference (and its missing import) does not."""
-    cands = [g for g in ctx.fns(file='reconcile.rs') if any(str(p_.get('ty') or '').replace(' ', '') in ('RenamedTypes', '&RenamedTypes') or 'HashMap<String,HashMap<' in str(p_.get('ty') or '').replace(' ', '') for p_ in g['params'])
-             and str(g.get('ret') or '').replace(' ', '') in ('Option<String>', 'Option<&String>', 'Option<&str>')]
+    # the table: a parameter of type RenamedTypes, or a field of that type of the struct the resolver is a method of
+    tfields = {fl['name'] for it in ctx.astq['items'] if it['kind'] == 'struct' and it['file'].endswith('reconcile.rs') for fl in it.get('fields', []) if 'RenamedTypes' in str(fl.get('ty') or '') or 'HashMap<String,HashMap<' in str(fl.get('ty') or '').replace(' ', '')}
+
+    def is_table_ty(t):
+        t = str(t or '').replace(' ', '')
+        return 'RenamedTypes' in t or 'HashMap<String,HashMap<' in t
+
+    def is_table(r, g):
+        r = vt.strip(r)
+        if not (isinstance(r, dict) and r.get('k') == 'atom'):
+            return False
+        if not r.get('path'):
+            return any(p_['name'] == r.get('root') and is_table_ty(p_.get('ty')) for p_ in g['params'])
+        return r.get('root') == 'self' and len(r['path']) == 1 and r['path'][0] in tfields
+    cands = []
+    for g in ctx.fns(file='reconcile.rs'):
+        rt = str(g.get('ret') or '').replace(' ', '')
+        if not (rt.startswith('Option<') and ('String' in rt or 'str' in rt)):
+            continue
+        if any(c.get('f') in ('get', 'get_mut') and c.get('recv') is not None and is_table(c['recv'], g) for c in g['calls']):
+            cands.append(g)
     if len(cands) != 1:
-        raise core.Incomplete(f"N8: the rename resolver (takes the rename table, returns Option<String>) expected once in reconcile.rs, found {[g['name'] for g in cands]}")
+        raise core.Incomplete(f"N8: the rename resolver (looks a name up in the rename table, returns Option<String>) expected once in reconcile.rs, found {[g['name'] for g in cands]}")
     f = ctx.x(cands[0])
     site = {'file': f['file'], 'line': f['line']}
-    tparam = next(p_['name'] for p_ in f['params'] if 'Renamed' in str(p_.get('ty') or '') or 'HashMap<String' in str(p_.get('ty') or '').replace(' ', ''))
-    cparam = next((p_['name'] for p_ in f['params'] if str(p_.get('ty') or '').replace('&', '').strip() == 'CrateName'), None)
+    cparams = {p_['name'] for p_ in f['params'] if str(p_.get('ty') or '').replace('&', '').strip() == 'CrateName'}
 
     def is_inner(v):
         """the inner map: a value obtained from the table by key (`table.get(id)?`, `table[id]`, `if let Some(m) = table.get(id)`)"""
@@ -542,10 +560,9 @@ def n8(ctx, rep):
                 break
         if isinstance(v, dict) and v.get('k') == 'call' and v.get('f') in ('get', 'get_mut') and v.get('recv') is not None:
             r = vt.strip(v['recv'])
-            return isinstance(r, dict) and r.get('k') == 'atom' and r.get('root') == tparam and not r.get('path')
+            return is_table(v['recv'], f)
         if isinstance(v, dict) and v.get('k') == 'index':
-            r = vt.strip(v.get('base'))
-            return isinstance(r, dict) and r.get('k') == 'atom' and r.get('root') == tparam
+            return is_table(v.get('base'), f)
         return False
     ENUM = ('values', 'values_mut', 'iter', 'iter_mut', 'into_iter', 'into_values', 'keys', 'into_keys', 'drain')
     n = 0
@@ -559,7 +576,7 @@ def n8(ctx, rep):
         elif nm in ('get', 'get_key_value', 'contains_key'):
             key = c['args'][0] if c.get('args') else None
             ks = [x for x in vt.walk(key)] if key is not None else []
-            ok = any(isinstance(x, dict) and x.get('k') == 'atom' and x.get('root') == cparam for x in ks) or any(isinstance(x, dict) and x.get('k') == 'field' and x.get('name') == 'base_crate' for x in ks) \
+            ok = any(isinstance(x, dict) and x.get('k') == 'atom' and ((x.get('root') in cparams and not x.get('path')) or (x.get('root') == 'self' and (x.get('path') or [None])[-1] == 'crate_name')) for x in ks) or any(isinstance(x, dict) and x.get('k') == 'field' and x.get('name') == 'base_crate' for x in ks) \
                 or any(isinstance(x, dict) and x.get('k') == 'atom' and (x.get('path') or [None])[-1] == 'base_crate' for x in ks)
             rep.check(ok, 'N8', f"resolver:key:{vt.show(key)[-40:].replace(' ', '')}", 'addressed by the importing crate or the current crate', f"{f['qual']} looks the new name up under `{vt.show(key)[:60]}` — neither the crate of an import of this type name nor the referencing crate", {'file': f['file'], 'line': c.get('line')})
     for lp in f.get('loops', []):
